@@ -102,7 +102,7 @@ var searchRoots = []searchRoot{
 	{"8/P6k/8/8/8/8/8/K7 w - - 0 1", nil, "promo net"},
 	{"8/5P1k/8/8/8/8/8/K6n w - - 0 1", nil, "promo net"},
 	{"8/5P1k/5K2/8/8/8/8/8 w - - 0 1", nil, "promo net"}, // only the ROOK promotion wins: the queen stalemates, bishop and knight leave insufficient material
-	{"8/8/8/8/8/2k5/K1p5/8 b - - 0 1", nil, "promo net"},  // the same for Black
+	{"8/8/8/8/8/2k5/K1p5/8 b - - 0 1", nil, "promo net"}, // the same for Black
 	{"4k3/8/8/8/8/8/1p6/K7 w - - 0 1", nil, "insufficient net"},
 	{"4k3/8/8/8/8/8/1pn5/K1B5 w - - 0 1", nil, "insufficient"},
 	{"k7/p7/P7/8/8/7p/7P/7K w - - 0 1", []string{"h1g1", "a8b8", "g1h1", "b8a8", "h1g1", "a8b8", "g1h1"}, "net repetition"},
